@@ -8,7 +8,10 @@ INTERCEPT_ARG0 = ('IFERROR', 'IFNA')
 SWALLOW = ('ISERROR', 'COUNT')
 
 
-def occurrences(e, conds=(), icpt=False, swallowed=False, via=None):
+AGGR = ('SUM', 'MAX', 'MIN')
+
+
+def occurrences(e, conds=(), icpt=False, swallowed=False, agg=False):
     """Yield (ref_or_name_node, conds, intercepted, swallowed) per occurrence.
 
     conds        lazy conditions under which the occurrence is evaluated
@@ -17,7 +20,7 @@ def occurrences(e, conds=(), icpt=False, swallowed=False, via=None):
     """
     k = e[0]
     if k in ('r', 'nm'):
-        yield e, conds, icpt, swallowed
+        yield e, conds, icpt, swallowed, agg
     elif k == 'op':
         for x in e[2:]:
             yield from occurrences(x, conds, icpt, swallowed)
@@ -51,7 +54,8 @@ def occurrences(e, conds=(), icpt=False, swallowed=False, via=None):
                 yield from occurrences(x, conds, icpt, True)
         else:
             for x in a:
-                yield from occurrences(x, conds, icpt, swallowed)
+                yield from occurrences(x, conds, icpt, swallowed,
+                                       fn in AGGR)
 
 
 class Graph:
@@ -65,7 +69,7 @@ class Graph:
         for u, c in enumerate(world['cells']):
             if 'f' not in c:
                 continue
-            for ref, conds, icpt, sw in occurrences(c['f']):
+            for ref, conds, icpt, sw, agg in occurrences(c['f']):
                 r = ref if ref[0] == 'r' else world['names'][ref[1]]['t']
                 cells = rect_cells(r)
                 members = []
@@ -76,7 +80,8 @@ class Graph:
                     members.append(v)
                     self.edge[u].setdefault(v, []).append({
                         'conds': conds, 'icpt': icpt, 'sw': sw,
-                        'multi': len(cells) > 1, 'name': ref[0] == 'nm'})
+                        'multi': len(cells) > 1, 'name': ref[0] == 'nm',
+                        'agg': agg})
                 if len(cells) > 1:
                     self.ranges.append((u, members, tuple(r[1:])))
         self.dep = [sorted(d) for d in self.edge]
@@ -89,8 +94,11 @@ class Graph:
 
     def prop(self, u, v):
         """Errors of v always reach u's result."""
-        return any(not o['conds'] and not o['icpt'] and not o['sw']
-                   for o in self.edge[u][v])
+        # (a member of a multi-cell rectangle reaches the result for sure
+        # only under an aggregate; in an element-wise / scalar context the
+        # fitting of the array decides which members are used)
+        return any(not o['conds'] and not o['icpt'] and not o['sw'] and
+                   (not o['multi'] or o['agg']) for o in self.edge[u][v])
 
     def intercepted_strict(self, u, v):
         return any(not o['conds'] and o['icpt'] for o in self.edge[u][v])
